@@ -67,6 +67,13 @@ func genValue(name string, seed uint64) any {
 	v := ent.New()
 	g := &G{R: h.NewRng(seed)}
 	g.Fill(reflect.ValueOf(v).Elem())
+	if st, ok := v.(*types.State); ok {
+		if name == "StateTheta" {
+			st.Theta = types.LastAccOut{{ServiceID: types.ServiceID(seed), Hash: types.OpaqueHash{1, 2, 3}}}
+		} else {
+			st.Theta = nil
+		}
+	}
 	return v
 }
 
